@@ -139,9 +139,16 @@ type vC08Out struct {
 	ID   int      `json:"id"`
 	Run1 *vC08Obs `json:"run1"`
 	Run2 *vC08Obs `json:"run2"`
+	Run3 *vC08Obs `json:"run3"` // on the allocator shared by all cases of the machine
 }
 
 func vC08RunCase(sys sysfs.System, c *vC08Case) (obs *vC08Obs) {
+	return vC08RunCaseOn(nil, sys, c)
+}
+
+// shared == nil: a fresh allocator (and topology cache) for the run; otherwise the long-lived
+// allocator that served all earlier cases of this machine, as in a policy
+func vC08RunCaseOn(shared CPUAllocator, sys sysfs.System, c *vC08Case) (obs *vC08Obs) {
 	obs = &vC08Obs{}
 	from := cpuset.New(c.From...)
 	defer func() {
@@ -152,7 +159,10 @@ func vC08RunCase(sys sysfs.System, c *vC08Case) (obs *vC08Obs) {
 			obs.From = vC08List(from)
 		}
 	}()
-	ca := NewCPUAllocator(sys) // fresh allocator (and topology cache) for every run
+	ca := shared
+	if ca == nil {
+		ca = NewCPUAllocator(sys) // fresh allocator (and topology cache) for every run
+	}
 	opts := []Option{}
 	if c.Prefer >= 0 {
 		opts = append(opts, WithPriority(CPUPriority(c.Prefer)))
@@ -252,6 +262,7 @@ func TestVerifC08(t *testing.T) {
 		enc := json.NewEncoder(w)
 		sc := bufio.NewScanner(cf)
 		sc.Buffer(make([]byte, 1<<20), 1<<24)
+		shared := NewCPUAllocator(s1)
 		for sc.Scan() {
 			c := &vC08Case{}
 			if err := json.Unmarshal(sc.Bytes(), c); err != nil {
@@ -260,6 +271,7 @@ func TestVerifC08(t *testing.T) {
 			o := &vC08Out{ID: c.ID}
 			o.Run1 = vC08RunCase(s1, c)
 			o.Run2 = vC08RunCase(s2, c)
+			o.Run3 = vC08RunCaseOn(shared, s1, c)
 			enc.Encode(o)
 		}
 		w.Flush()
